@@ -186,10 +186,13 @@ impl Report {
             }
             unlisted += 1;
             if k < 25 {
-                let path = replay_dir.join(format!("{}-{}.json", self.property, k));
+                let profile = std::env::var("VERIF_PROFILE").unwrap_or_else(|_| "checked".into());
+                let suffix = if profile == "checked" { String::new() } else { format!("-{}", profile) };
+                let path = replay_dir.join(format!("{}{}-{}.json", self.property, suffix, k));
                 let body = json!({
                     "property": self.property, "sub": v.sub, "key": v.key,
                     "case": v.case, "expected": v.expected, "observed": v.observed,
+                    "profile": profile,
                 });
                 let _ = std::fs::write(&path, serde_json::to_string_pretty(&body).unwrap());
                 let _ = writeln!(
@@ -237,6 +240,12 @@ impl Report {
             json!(self.any_sub && self.exhaustive_all),
         );
         cov.insert("bounds".into(), json!(self.bounds));
+        // the build profile of espada + harness in this pass ("checked" = release with overflow checks and debug
+        // assertions; "release" = the stock release profile users get), and the summary of the other pass if ./check ran two
+        cov.insert("build_profile".into(), json!(std::env::var("VERIF_PROFILE").unwrap_or_else(|_| "checked".into())));
+        if let Ok(other) = std::env::var("VERIF_OTHER_PASS") {
+            cov.insert("other_pass".into(), json!(other));
+        }
         cov.insert("sub_checks".into(), Value::Array(self.subs.clone()));
         cov.insert("unlisted_violations".into(), Value::Array(listed_in_evidence));
         cov.insert(
